@@ -47,11 +47,13 @@ def sidesCompatible (S : Schema) (doc : Node) (f t : Nat) (sl : Slice) : Bool :=
     (singleDepth sl.content sl.openStart sl.openEnd) doc.kids f doc.kids t
 
 /-- **fit guard of `replaceAround_undo`**: the gap `gf … gt`, removed from the old slice
-    `doc.slice(f, t)`, can be put back by `insert_at` — `insert_into`'s check
-    `parent.can_replace(index, index, gap)` of the node the gap lands in (when that node is complete
-    in the slice) does not reject it.  A successful forward step does not imply this: at a position
-    inside a text child the check counts that text twice, and where `remove_range` merged the two
-    texts around the gap it places the gap before the merged text. -/
+    `doc.slice(f, t)`, can be put back by `insert_at` — `insert_into`'s check of the node the gap
+    lands in (when that node is complete in the slice) does not reject it.  Since `insert_into`
+    validates the content it *built* (`parent.type.valid_content(result)`; finding
+    C04-around-text-gap was the old test `parent.can_replace(index, index, gap)`, which at a position
+    inside a text child counted that text twice, and where `remove_range` merged the two texts around
+    the gap placed the gap before the merged text) this holds for every applied step on a valid
+    normal-form document up to pair-alignment of the cut: `gapFitsBack_of_valid`, Proofs/GapBack.lean. -/
 def gapFitsBack (S : Schema) (doc : Node) (f t gf gt : Nat) : Bool :=
   match doc.slice f t, doc.slice gf gt with
   | .ok old, .ok gap =>
